@@ -39,6 +39,13 @@ type Case struct {
 	Seed    uint64     `json:"seed"`
 	FragsGE []int      `json:"frags_ge"` // evaluator's read fragmentation
 	FragsEG []int      `json:"frags_eg"`
+	// Reuse (OT kind co only): Earlier sessions on fresh connections run
+	// before the judged one, and the named party ("evaluator", "garbler",
+	// "both") keeps its ot.OT object across all of them, as the evaluator
+	// loop of apps/garbled does; the other party starts each session with
+	// a new object.
+	Reuse   string `json:"reuse,omitempty"`
+	Earlier int    `json:"earlier,omitempty"`
 }
 
 // Compiled programs: name -> source.  Shapes the hand-made generator does not
@@ -210,6 +217,10 @@ func genCase(t *rapid.T) Case {
 		cs.OT = "cot-malicious"
 	}
 	cs.Seed = rapid.Uint64().Draw(t, "seed")
+	if cs.OT == "co" && nx+ny <= 600 && rapid.IntRange(0, 3).Draw(t, "reuse") == 0 {
+		cs.Reuse = rapid.SampledFrom([]string{"evaluator", "evaluator", "garbler", "both"}).Draw(t, "reuseparty")
+		cs.Earlier = rapid.IntRange(1, 2).Draw(t, "earlier")
+	}
 	cs.FragsGE = drawFrags(t, "frag_ge")
 	cs.FragsEG = drawFrags(t, "frag_eg")
 	return cs
@@ -246,6 +257,17 @@ func makeOT(kind string, seed uint64, party uint64) ot.OT {
 		return ot.NewCOT(ot.NewCO(r), r2, true, false)
 	}
 	panic("unknown OT kind " + kind)
+}
+
+// vary derives the inputs of an earlier session from those of the judged one:
+// rotated by k positions, every third bit inverted.
+func vary(bits []bool, k int) []bool {
+	n := len(bits)
+	res := make([]bool, n)
+	for i := range res {
+		res[i] = bits[(i+k)%n] != ((i+k)%3 == 0)
+	}
+	return res
 }
 
 func bitsToInt(bits []bool) *big.Int {
@@ -305,57 +327,96 @@ func run(cs Case) ev.Outcome {
 	}
 	want := gen.SplitBits(gc.OutputBits(wires), outWidths)
 
-	d := xport.NewDuplex(cs.FragsGE, cs.FragsEG)
-	gConn, eConn := d.Conns()
-	cfg := &env.Config{Rand: gen.NewDRBG(cs.Seed, 1)}
-	gOT := makeOT(kind, cs.Seed, 0)
-	eOT := makeOT(kind, cs.Seed, 1)
-	gIn, eIn := bitsToInt(x), bitsToInt(y)
-
-	res := xport.RunPair(d,
-		func() ([]*big.Int, error) {
-			return circuit.Garbler(cfg, gConn, gOT, circ, gIn, false)
-		},
-		func() ([]*big.Int, error) {
-			return circuit.Evaluator(eConn, eOT, circ, eIn, false)
-		}, 10*time.Second, 120*time.Second)
-	d.Close()
-
-	desc := fmt.Sprintf("ot=%s x=%s y=%s", kind, cs.X, cs.Y)
-	if res.TimedOut {
-		return ev.Outcome{Skip: "time budget exhausted (inconclusive)"}
-	}
-	if res.A.Panic != "" {
-		return ev.Fail("garbler/panic/"+xport.PanicSiteOf(res.A.Panic),
-			"%s: garbler panicked: %s", desc, res.A.Panic)
-	}
-	if res.B.Panic != "" {
-		return ev.Fail("evaluator/panic/"+xport.PanicSiteOf(res.B.Panic),
-			"%s: evaluator panicked: %s", desc, res.B.Panic)
-	}
-	if res.Stalled {
-		return ev.Fail("stall/"+kind, "%s: session stalled (both parties blocked reading)", desc)
-	}
-	if res.A.Err != nil || res.B.Err != nil {
-		return ev.Fail("error/"+kind, "%s: garbler err=%v evaluator err=%v",
-			desc, res.A.Err, res.B.Err)
-	}
-	if len(res.A.Vals) != len(want) || len(res.B.Vals) != len(want) {
-		return ev.Fail("arity", "%s: garbler returned %d values, evaluator %d, want %d",
-			desc, len(res.A.Vals), len(res.B.Vals), len(want))
-	}
-	for i := range want {
-		if res.A.Vals[i].Cmp(res.B.Vals[i]) != 0 {
-			return ev.Fail("parties-disagree", "%s: output %d: garbler %s, evaluator %s (reference %s)",
-				desc, i, res.A.Vals[i].Text(2), res.B.Vals[i].Text(2), want[i].Text(2))
+	sessions := 1
+	if cs.Reuse != "" {
+		if kind != "co" || cs.Earlier < 1 || cs.Earlier > 4 {
+			return ev.Outcome{Skip: "OT reuse is generated for the co kind with 1-4 earlier sessions"}
 		}
-		if res.A.Vals[i].Cmp(want[i]) != 0 {
-			return ev.Fail("wrong-result", "%s: output %d: both parties returned %s, reference evaluation gives %s",
-				desc, i, res.A.Vals[i].Text(2), want[i].Text(2))
+		switch cs.Reuse {
+		case "evaluator", "garbler", "both":
+		default:
+			return ev.Outcome{Skip: "unknown reuse party"}
+		}
+		sessions = cs.Earlier + 1
+	}
+	var gOT, eOT ot.OT
+	for sn := 0; sn < sessions; sn++ {
+		last := sn == sessions-1
+		// Earlier sessions use other inputs (rotated and partly inverted).
+		sx, sy := x, y
+		if !last {
+			sx, sy = vary(x, sn+1), vary(y, sn+2)
+		}
+		swant := want
+		if !last {
+			sw := gc.Eval(append(append([]bool{}, sx...), sy...))
+			swant = gen.SplitBits(gc.OutputBits(sw), outWidths)
+		}
+		d := xport.NewDuplex(cs.FragsGE, cs.FragsEG)
+		gConn, eConn := d.Conns()
+		cfg := &env.Config{Rand: gen.NewDRBG(cs.Seed, 1+100*uint64(sn))}
+		if gOT == nil || !(cs.Reuse == "garbler" || cs.Reuse == "both") {
+			gOT = makeOT(kind, cs.Seed, 100*uint64(sn))
+		}
+		if eOT == nil || !(cs.Reuse == "evaluator" || cs.Reuse == "both") {
+			eOT = makeOT(kind, cs.Seed, 100*uint64(sn)+1)
+		}
+		gIn, eIn := bitsToInt(sx), bitsToInt(sy)
+		g, e := gOT, eOT
+
+		res := xport.RunPair(d,
+			func() ([]*big.Int, error) {
+				return circuit.Garbler(cfg, gConn, g, circ, gIn, false)
+			},
+			func() ([]*big.Int, error) {
+				return circuit.Evaluator(eConn, e, circ, eIn, false)
+			}, 10*time.Second, 120*time.Second)
+		d.Close()
+
+		desc := fmt.Sprintf("ot=%s x=%s y=%s", kind, gen.BitsOf(sx), gen.BitsOf(sy))
+		pre := ""
+		if sessions > 1 {
+			desc = fmt.Sprintf("session %d of %d (%s keeps its OT object): %s", sn+1, sessions, cs.Reuse, desc)
+			pre = "reuse/"
+		}
+		if res.TimedOut {
+			return ev.Outcome{Skip: "time budget exhausted (inconclusive)"}
+		}
+		if res.A.Panic != "" {
+			return ev.Fail(pre+"garbler/panic/"+xport.PanicSiteOf(res.A.Panic),
+				"%s: garbler panicked: %s", desc, res.A.Panic)
+		}
+		if res.B.Panic != "" {
+			return ev.Fail(pre+"evaluator/panic/"+xport.PanicSiteOf(res.B.Panic),
+				"%s: evaluator panicked: %s", desc, res.B.Panic)
+		}
+		if res.Stalled {
+			return ev.Fail(pre+"stall/"+kind, "%s: session stalled (both parties blocked reading)", desc)
+		}
+		if res.A.Err != nil || res.B.Err != nil {
+			return ev.Fail(pre+"error/"+kind, "%s: garbler err=%v evaluator err=%v",
+				desc, res.A.Err, res.B.Err)
+		}
+		if len(res.A.Vals) != len(swant) || len(res.B.Vals) != len(swant) {
+			return ev.Fail(pre+"arity", "%s: garbler returned %d values, evaluator %d, want %d",
+				desc, len(res.A.Vals), len(res.B.Vals), len(swant))
+		}
+		for i := range swant {
+			if res.A.Vals[i].Cmp(res.B.Vals[i]) != 0 {
+				return ev.Fail(pre+"parties-disagree", "%s: output %d: garbler %s, evaluator %s (reference %s)",
+					desc, i, res.A.Vals[i].Text(2), res.B.Vals[i].Text(2), swant[i].Text(2))
+			}
+			if res.A.Vals[i].Cmp(swant[i]) != 0 {
+				return ev.Fail(pre+"wrong-result", "%s: output %d: both parties returned %s, reference evaluation gives %s",
+					desc, i, res.A.Vals[i].Text(2), swant[i].Text(2))
+			}
 		}
 	}
 
 	classes := []string{"ot=" + kind}
+	if cs.Reuse != "" {
+		classes = append(classes, "ot-object-reused-by="+cs.Reuse)
+	}
 	if cs.Gen != nil {
 		classes = append(classes, "compiled", "generated-program")
 	} else if cs.Prog != "" {
